@@ -235,3 +235,90 @@ Lemma failures_bound_is_reached :
   let s := run (cfg_now (Some 1)) sched_limit (init 2 [op_fail 0; op_ok 1 2]) in
   failed_scenarios (trace s) = 1 /\ limit s = true.
 Proof. vm_compute. split; reflexivity. Qed.
+
+(* ------------------------------------------------------------------ *)
+(* I: after a stop request at most one more operation per worker is fetched *)
+(* ------------------------------------------------------------------ *)
+Definition is_fetch (w : wpc) : bool := match w with WFetch => true | _ => false end.
+Definition count_fetch (ws : list wpc) : nat := length (filter is_fetch ws).
+
+Lemma count_fetch_le ws : count_fetch ws <= length ws.
+Proof. unfold count_fetch. induction ws as [|w ws IH]; cbn; auto. destruct (is_fetch w); cbn; lia. Qed.
+
+Lemma count_fetch_upd i w w' ws : nth_error ws i = Some w ->
+  count_fetch (upd i w' ws) + b2n (is_fetch w) = count_fetch ws + b2n (is_fetch w').
+Proof.
+  unfold count_fetch. revert i. induction ws as [|y ws IH]; intros [|i] H; cbn in *; try discriminate.
+  - inversion H; subst. destruct (is_fetch w), (is_fetch w'); cbn; lia.
+  - specialize (IH _ H). destruct (is_fetch y); cbn; lia.
+Qed.
+
+Definition invI (ops0 cf0 : nat) (s : state) : Prop :=
+  has_to_stop s = true /\ ops0 + count_fetch (workers s) <= length (ops s) + cf0.
+
+Lemma is_fetch_next_case o rest st : is_fetch (next_case o rest st) = false.
+Proof. unfold next_case. destruct rest; reflexivity. Qed.
+
+Lemma invI_step c ops0 cf0 s l : invI ops0 cf0 s -> invI ops0 cf0 (step c s l).
+Proof.
+  intros [Hs HI]. destruct l; cbn [step].
+  - (* consumer: ops and workers untouched, has_to_stop only grows *)
+    assert (Hgen : forall s', ops s' = ops s -> workers s' = workers s -> has_to_stop s' = true -> invI ops0 cf0 s').
+    { intros s' E1 E2 E3. split; auto. rewrite E1, E2. exact HI. }
+    unfold consumer_step. destruct (cp s).
+    + destruct (queue s); [apply Hgen; auto|]. destruct (stop s) eqn:Es; apply Hgen; auto; unfold has_to_stop in *; cbn; rewrite ?Es in *; auto.
+    + destruct (if counts_as_failure e then count_failure c (counter s) (limit s) else (counter s, limit s)) as [n lim] eqn:E.
+      apply Hgen; auto. unfold has_to_stop in *. cbn. apply orb_true_iff in Hs. apply orb_true_iff.
+      destruct Hs as [H|H]; [left; rewrite H, orb_true_r; reflexivity | right; eapply count_failure_limit_mono; eauto].
+    + apply Hgen; auto.
+    + apply Hgen; auto.
+    + split; auto.
+  - destruct (nth_error (workers s) i) eqn:Ei; [|split; auto].
+    split; [rewrite has_to_stop_mono_worker; exact Hs|].
+    assert (Hkeep : forall s' w', is_fetch w' = false -> ops s' = ops s -> workers s' = upd i w' (workers s) ->
+              ops0 + count_fetch (workers s') <= length (ops s') + cf0).
+    { intros s' w' Hw E1 E2. rewrite E1, E2. pose proof (count_fetch_upd i w w' _ Ei) as Hc. rewrite Hw in Hc. cbn in Hc.
+      destruct (is_fetch w); cbn in Hc; lia. }
+    destruct w; cbn [worker_step].
+    + rewrite Hs. apply (Hkeep _ WDead); auto.
+    + (* the fetch itself: one operation less, one worker less in WFetch *)
+      pose proof (count_fetch_upd i WFetch) as Hc.
+      destruct (ops s) as [|o rest] eqn:Eo.
+      * specialize (Hc WDead _ Ei). cbn in Hc. cbn [set_worker ops workers length]. rewrite Eo. cbn [length] in *. lia.
+      * cbn [length] in HI. destruct (build_err o); cbn [set_worker ops workers length].
+        -- specialize (Hc (WPut [ScStart (op_id o); NonFatal (op_id o); ScFinish (op_id o) ERROR]) _ Ei). cbn in Hc. lia.
+        -- specialize (Hc (WStart o) _ Ei). cbn in Hc. lia.
+    + apply (Hkeep _ (next_case o (cases o) SUCCESS)); auto. apply is_fetch_next_case.
+    + rewrite Hs. apply (Hkeep _ (WPut [ScFinish (op_id o) INTERRUPTED; Interrupt])); auto.
+    + destruct c0; [|destruct (cof c)|].
+      * apply (Hkeep _ (next_case o rest st)); auto. apply is_fetch_next_case.
+      * apply (Hkeep _ (next_case o rest FAILURE)); auto. apply is_fetch_next_case.
+      * apply (Hkeep _ (WPut [ScFinish (op_id o) FAILURE])); auto.
+      * apply (Hkeep _ (WPut [NonFatal (op_id o); ScFinish (op_id o) ERROR])); auto.
+    + destruct script as [|e k]; [apply (Hkeep _ WLoop); auto|].
+      apply (Hkeep _ (after_put k)); auto. unfold after_put. destruct k; reflexivity.
+    + exact HI.
+  - split; auto.
+Qed.
+
+(* From ANY state (reachable or not) in which a stop was requested or the limit reached: however the run
+   continues, at most one further operation per worker is taken from the producer. *)
+Lemma fetches_after_stop_le_workers c sched a :
+  has_to_stop a = true ->
+  length (ops a) - length (ops (run c sched a)) <= length (workers a).
+Proof.
+  intros Hs.
+  assert (H : invI (length (ops a)) (count_fetch (workers a)) (run c sched a)).
+  { apply run_inv; [intros; apply invI_step; auto|]. split; auto. }
+  destruct H as [_ H]. pose proof (count_fetch_le (workers a)). lia.
+Qed.
+
+Lemma no_scenario_after_stop c s1 s2 n os :
+  let a := step c (run c s1 (init n os)) Stop in
+  length (ops a) - length (ops (run c s2 a)) <= n.
+Proof.
+  intros a. pose proof (fetches_after_stop_le_workers c s2 a) as H.
+  assert (Hlen : length (workers a) = n).
+  { unfold a. cbn. rewrite run_workers_length. cbn. apply repeat_length. }
+  rewrite Hlen in H. apply H. reflexivity.
+Qed.
